@@ -113,4 +113,10 @@ FINDINGS = [
               '31 06 02 02 01 00 31 00 (ber.py:698-708 encodes root members, then additions)',
          witness=dict(kind='encode_expect', spec=HDRX + 'A ::= SET { item SET { }, ..., flag INTEGER OPTIONAL }' + END, codec='der', type='A',
                       value={'item': {}, 'flag': 256}, expected_hex='3106020201003100')),
+    dict(key='ber-set-permutation-across-extension-additions', props=['C04'],
+         text='BER SET with extension additions: the decoder accepts any order among the root components and among the additions, but not an '
+              'addition placed before a root component: SET { a [0] INTEGER, ..., b [1] BOOLEAN OPTIONAL } encoded as 31 06 81 01 ff 80 01 05 '
+              '(b before a) is rejected (ber.py:755-760 decodes root members and additions in two passes)',
+         witness=dict(kind='decode_expect', spec=HDR + 'A ::= SET { a [0] INTEGER, ..., b [1] BOOLEAN OPTIONAL }' + END, codec='ber', type='A',
+                      data_hex='31068101ff800105', expected={'a': 5, 'b': True})),
 ]
